@@ -127,6 +127,75 @@ fn bar_line(line: &str) -> String {
     })
 }
 
+/// task::run_task around a scripted command:
+/// <showinc 0|1> <term 0|1|2> <stale depfile ~|hex> <depfile the command writes ~|hex> <rspfile content ~|hex> <chunk,chunk,...|->
+fn task_line(line: &str) -> String {
+    let w: Vec<String> = words(line).iter().map(|s| s.to_string()).collect();
+    guarded(move || {
+        let dir = std::env::temp_dir().join(format!("n2verif-task-{}", std::process::id()));
+        let _ = std::fs::remove_dir_all(&dir);
+        std::fs::create_dir_all(&dir).unwrap();
+        let showinc = w[0] == "1";
+        let term: u8 = w[1].parse().unwrap();
+        let dpath = dir.join("sub").join("o.d");
+        let rpath = dir.join("rsp").join("deep").join("o.rsp");
+        let uses_depfile = w[2] != "~" || w[3] != "~" || w.get(6).map(|s| s == "d").unwrap_or(false);
+        if w[2] != "~" {
+            std::fs::create_dir_all(dpath.parent().unwrap()).unwrap();
+            std::fs::write(&dpath, unhex(&w[2])).unwrap();
+        }
+        let chunks: Vec<Vec<u8>> = if w[5] == "-" { vec![] } else { w[5].split(',').map(|c| unhex(c)).collect() };
+        if w[3] != "~" {
+            std::fs::create_dir_all(dpath.parent().unwrap()).unwrap();
+        }
+        n2::verif::set_command_script(Some(n2::verif::CommandScript {
+            chunks,
+            termination: term,
+            write_depfile: if w[3] != "~" { Some((dpath.clone(), unhex(&w[3]))) } else { None },
+            observe: Some(rpath.clone()),
+        }));
+        let rsp = if w[4] != "~" { Some((rpath.clone(), unhex(&w[4]))) } else { None };
+        let (r, lines) = n2::verif::run_task("the command", if uses_depfile { Some(dpath.as_path()) } else { None }, showinc, rsp);
+        let seen = n2::verif::take_command_observed();
+        n2::verif::set_command_script(None);
+        let _ = std::fs::remove_dir_all(&dir);
+        let dstr = dpath.to_string_lossy().into_owned();
+        let seen_s = match seen {
+            Some((cmd, Some(c))) if cmd == "the command" => hex(&c),
+            Some((cmd, None)) if cmd == "the command" => "~".to_string(),
+            _ => "?".to_string(),
+        };
+        let ll = lines.iter().map(|l| hex(l)).collect::<Vec<_>>().join(",");
+        match r {
+            Ok(t) => format!(
+                "ok {} {} {} lines={} rsp={}",
+                t.termination,
+                hex(&t.output),
+                match t.discovered_deps {
+                    None => "~".to_string(),
+                    Some(d) => format!("[{}]", d.iter().map(|x| hex(x)).collect::<Vec<_>>().join(",")),
+                },
+                ll,
+                seen_s
+            ),
+            // the scratch path is replaced by a fixed name so that both sides print the same text
+            Err(e) => {
+                // the caret line is indented by the length of "<path>:<line>: " plus the column: take the difference out again
+                let mut t = e.replace(&dstr, "DEPFILE");
+                if e.contains(&dstr) && dstr.len() > 7 {
+                    if let Some(pos) = t.rfind("\n ") {
+                        let cut = dstr.len() - 7;
+                        if t[pos + 1..].starts_with(&" ".repeat(cut)) {
+                            t.replace_range(pos + 1..pos + 1 + cut, "");
+                        }
+                    }
+                }
+                format!("err {} rsp={}", hex(t.as_bytes()), seen_s)
+            }
+        }
+    })
+}
+
 /// String::from_utf8_lossy (what FancyState::task_output applies to a command's last output line)
 fn lossy_line(line: &str) -> String {
     let b = unhex(line);
@@ -420,6 +489,7 @@ fn main() {
         "bar" => bar_line,
         "fancy" => fancy_line,
         "lossy" => lossy_line,
+        "task" => task_line,
         "dedup" => dedup_line,
         "hist" => hist::hist_line,
         "db" => db_line,
